@@ -195,6 +195,24 @@ def own_distance(metric, p, q):
         s = s + (b - a) * (b - a)
     return math.sqrt(s)
 
+def own_distance_pow(metric, p, q):
+    """the Euclidean-based metrics with the squares taken by the platform's pow (libm: not specified to round
+    x^2 correctly) instead of x*x"""
+    if metric == 'half':
+        return 0.5 * own_distance_pow(None, p, q)
+    if metric is None:
+        s = 0.0
+        for a, b in zip(p, q):
+            s = s + math.pow(b - a, 2)
+        return math.sqrt(s)
+    return own_distance(metric, p, q)
+
+def closeness(metric, p, q, eps):
+    """True / False, or None when the answer depends on how the platform rounds a square (the pair may then be
+    an edge or not: binary64 distance is what the property is about, not one libm)"""
+    a = own_distance(metric, p, q) <= eps; b = own_distance_pow(metric, p, q) <= eps
+    return a if a == b else None
+
 @oracle('c12')
 def o_c12(w, args):
     """<vr> = <e>.vietorisRipsComplex(eps): the points of e's complex and a simplex exactly on the
@@ -204,10 +222,15 @@ def o_c12(w, args):
     metric = getattr(e, '_metric', None)
     pos = {tok(p): e.positionOf(p) for p in pts}
     close = set()
+    got = fam_sets(vr)
     for i in range(len(pts)):
         for j in range(i + 1, len(pts)):
-            if own_distance(metric, pos[tok(pts[i])], pos[tok(pts[j])]) <= eps:
-                close.add(frozenset([tok(pts[i]), tok(pts[j])]))
+            cl = closeness(metric, pos[tok(pts[i])], pos[tok(pts[j])], eps)
+            E_ = frozenset([tok(pts[i]), tok(pts[j])])
+            if cl is None:
+                cl = E_ in got          # a tie decided by the rounding of a square: either way
+            if cl:
+                close.add(E_)
     want = {frozenset([tok(p)]) for p in pts}
     level = set(close); want |= close
     adj = {tok(p): set() for p in pts}
@@ -219,7 +242,6 @@ def o_c12(w, args):
             for q in set.intersection(*(adj[p] for p in K)):
                 nxt.add(K | {q})
         want |= nxt; level = nxt
-    got = fam_sets(vr)
     if got != want:
         return '[vietorisRips/wrong-family] eps=%r: missing %s ; extra %s' % (
             eps, sorted(map(sorted, want - got))[:4], sorted(map(sorted, got - want))[:4])
@@ -244,7 +266,14 @@ def o_c12_lattice(w, args):
     for p in pts:
         i, j = divmod(p, cols)
         pos[p] = [(wd / (2 * cols)) * (2 * j + (i % 2)), h - (h / r) * i]
-    close = {frozenset([tok(a), tok(b)]) for a, b in itertools.combinations(pts, 2) if own_distance(None, pos[a], pos[b]) <= eps}
+    got = fam_sets(vr)
+    close = set()
+    for a, b in itertools.combinations(pts, 2):
+        cl = closeness(None, pos[a], pos[b], eps); E_ = frozenset([tok(a), tok(b)])
+        if cl is None:
+            cl = E_ in got              # a tie decided by the rounding of a square: either way
+        if cl:
+            close.add(E_)
     want = {frozenset([tok(p)]) for p in pts} | close
     adj = {tok(p): set() for p in pts}
     for E in close:
